@@ -3,7 +3,7 @@ C02: the satisfier with the `j:` dissatisfaction as a parameter.
 
 `satDissatG nz` is a verbatim copy of `satDissat` (Model/Satisfy.lean) except that the
 dissatisfaction of `j:X` is the parameter `nz` instead of the literal of the Rust code.
-  * `satDissatG MODEL_NZ = satDissat`               (`satDissatG_model`, MODEL_NZ = IMPOSSIBLE today)
+  * `satDissatG MODEL_NZ = satDissat`               (`satDissatG_model`, MODEL_NZ = push0 since the F3 fix)
   * `satDissatFixed = satDissatG Sat.push0`         (the specification's `dsat(j:X) = 0`)
 All completeness proofs are done once, for `satDissatG nz`.
 
@@ -101,8 +101,8 @@ def satDissatsG (nz : Sat) (c : SatCfg) : MsList → List SatDissat
 end
 
 /-- the `dissat` literal of the `Terminal::NonZero` arm in `Model/Satisfy.lean`
-(= `src/miniscript/satisfy/sat_dissat.rs`).  AFTER THE FIX: change to `Sat.push0`. -/
-def MODEL_NZ : Sat := Sat.IMPOSSIBLE
+(= `src/miniscript/satisfy/sat_dissat.rs`): `push_0` since the fix of defect F3 (before: IMPOSSIBLE) -/
+def MODEL_NZ : Sat := Sat.push0
 
 /-- the satisfier with the specification's `j:` row (`dsat(j:X) = 0`) -/
 def satDissatFixed (c : SatCfg) (ms : Ms) : SatDissat := satDissatG Sat.push0 c ms
